@@ -284,7 +284,7 @@ def run_shard(spec, ctx):
     col = ctx.col
     if spec[0] == "enum":
         _, k, n = spec
-        rounds = ctx.pick(3, 80)
+        rounds = ctx.pick(3, 56)
         for idx in range(N_COMBOS):
             if idx % n != k:
                 continue
@@ -309,7 +309,7 @@ def run_shard(spec, ctx):
                                                         and len(pic) * len(pic[0]) <= 12
                                                         and case["mag"] in ("tiny", "10bit", "2^15")))
 
-        run_given(case_strategy(), body, ctx, ctx.pick(500, 50000))
+        run_given(case_strategy(), body, ctx, ctx.pick(500, 36000))
     else:
         raise ValueError(spec)
 
